@@ -92,4 +92,67 @@ theorem Stack.push_spec (zero : α) (s : Stack α) (v : α) (h : s.Inv) :
       · simp; omega
       · rw [habs']; simp [hsz]
 
+theorem Stack.topCell_ok (s : Stack α) (b : Array α) (rest : List (Array α)) (hn : s.nodes = b :: rest)
+    (h0 : 0 ≤ s.topIndex) (h1 : s.topIndex.toNat < b.size) :
+    s.topCell = .ok (b.toList[s.topIndex.toNat]'(by simpa using h1)) := by
+  simp [Stack.topCell, hn, h0, h1]
+
+theorem Stack.abs_nonempty (s : Stack α) (h : s.Inv) (b : Array α) (rest : List (Array α)) (hn : s.nodes = b :: rest) :
+    ∃ (hlt : s.topIndex.toNat < b.toList.length), 0 ≤ s.topIndex ∧ b.size = s.nodeSize ∧
+      s.abs = b.toList[s.topIndex.toNat] :: ((b.toList.take s.topIndex.toNat).reverse ++ Stack.below rest) := by
+  obtain ⟨hpos, hbl, hnil, hcons, hsz⟩ := h
+  have ht := hcons (by simp [hn])
+  have hb : b.size = s.nodeSize := hbl b (by simp [hn])
+  have hlt : s.topIndex.toNat < b.toList.length := by simp; omega
+  refine ⟨hlt, ht.1, hb, ?_⟩
+  have h3 : (s.topIndex + 1).toNat = s.topIndex.toNat + 1 := by omega
+  simp [Stack.abs, hn, h3, take_succ_getElem _ _ hlt]
+
+theorem Stack.pop_spec (s : Stack α) (h : s.Inv) :
+    ∃ s', s.pop = .ok (s', (Spec.S.pop s.abs).2) ∧ s'.Inv ∧ s'.abs = (Spec.S.pop s.abs).1 ∧
+      s'.nodeSize = s.nodeSize := by
+  cases hn : s.nodes with
+  | nil =>
+    have habs : s.abs = [] := by simp [Stack.abs, hn]
+    have h0 : s.listSize = 0 := by rw [h.size, habs]; rfl
+    exact ⟨s, by simp [Stack.pop, h0, habs, Spec.S.pop], h, by simp [habs, Spec.S.pop], rfl⟩
+  | cons b rest =>
+    obtain ⟨hlt, h0, hb, habs⟩ := Stack.abs_nonempty s h b rest hn
+    obtain ⟨hpos, hbl, hnil, hcons, hsz⟩ := h
+    have hne : s.listSize ≠ 0 := by rw [hsz, habs]; simp; omega
+    have hcell := Stack.topCell_ok s b rest hn h0 (by simpa using hlt)
+    simp only [Stack.pop, hne, if_false, hcell, habs, Spec.S.pop]
+    by_cases hlast : s.topIndex - 1 = -1
+    · simp only [hlast, if_true, hn, List.tail_cons]
+      have ht0 : s.topIndex.toNat = 0 := by omega
+      have hsz' : s.listSize - 1 = ↑(below rest).length := by
+        rw [hsz, habs]; simp [ht0]
+      cases hr : rest with
+      | nil =>
+        simp [ht0, Stack.below]
+        have habs' : Stack.abs (⟨s.nodeSize, s.listSize - 1, -1, []⟩ : Stack α) = [] := rfl
+        refine ⟨⟨hpos, by simp, by simp, by simp, ?_⟩, habs'⟩
+        rw [habs', hsz', hr]; rfl
+      | cons b2 rest2 =>
+        simp [ht0]
+        have hb2 : b2.size = s.nodeSize := hbl b2 (by simp [hn, hr])
+        have habs' : Stack.abs (⟨s.nodeSize, s.listSize - 1, ↑s.nodeSize - 1, b2 :: rest2⟩ : Stack α)
+            = below (b2 :: rest2) := by
+          have h2 : List.take s.nodeSize b2.toList = b2.toList := List.take_of_length_le (by simp [hb2])
+          simp [Stack.abs, Stack.below, h2]
+        refine ⟨⟨hpos, ?_, by simp, ?_, ?_⟩, habs'⟩
+        · intro b' hb'
+          exact hbl b' (by rw [hn, hr]; exact List.mem_cons_of_mem _ hb')
+        · simp; omega
+        · rw [habs', ← hr]; exact hsz'
+    · simp [hlast]
+      have ht := hcons (by simp [hn])
+      have habs' : Stack.abs (⟨s.nodeSize, s.listSize - 1, s.topIndex - 1, s.nodes⟩ : Stack α)
+          = (List.take s.topIndex.toNat b.toList).reverse ++ below rest := by
+        simp [Stack.abs, hn]
+      refine ⟨⟨hpos, hbl, ?_, ?_, ?_⟩, habs'⟩
+      · simp [hn]
+      · simp; omega
+      · rw [habs']; rw [hsz, habs]; simp
+
 end AlgoVerif.C18
